@@ -23,6 +23,16 @@ def correct(value, ty):
     return value - base if signed and value.bit_length() == bits else value
 
 
+def rem(a, b):
+    """Remainder of the division that truncates toward zero.
+
+    This is what the '%' operation computes at run time: the result takes
+    the sign of a, where python's % takes the sign of b (-7 % 2 == 1).
+    """
+    r = abs(a) % abs(b)
+    return -r if a < 0 else r
+
+
 def enhance(f):
     """Create a new enhanced method that corrects for the given type"""
     return lambda ty, a, b: correct(f(a, b), ty)
@@ -37,7 +47,7 @@ class ConstantFolder(BlockPass):
             "+": enhance(operator.add),
             "-": enhance(operator.sub),
             "*": enhance(operator.mul),
-            "%": enhance(operator.mod),
+            "%": enhance(rem),
             "<<": enhance(operator.lshift),
             ">>": enhance(operator.rshift),
         }
